@@ -14,7 +14,9 @@ import vcommon as vc
 WRAPS = ["fopen", "fread", "fwrite", "fseek", "ftell", "fflush", "fclose"]
 WORKLOADS = ["h_put", "h_putc", "h_put16", "h_linked", "h_linkedc", "h_update", "h_updatec", "h_read",
              "v_write", "v_update", "v_read", "sd_write", "sd_chunk", "sd_update", "sd_read", "sd_cread",
-             "gr_write", "gr_read", "an_write", "an_read"]
+             "gr_write", "gr_read", "an_write", "an_read",
+             "sd_dims", "sd_inq", "sd_cinq", "h_special", "h_inq", "v_attr", "v_inq", "v_inq1", "gr_more", "gr_inq",
+             "gr_inq1"]
 FN_SCEN = {"plain": ["Hclose", "HIsync", "Hsync", "HTPsync", "HIextend_file", "HP_write 7", "HPseek 10", "HPseekcur"],
            "nocache": ["Hclose", "HIsync", "HP_write 3", "HPseek 0"],
            "cache": ["Hclose", "HIsync", "Hsync", "HTPsync", "HIextend_file", "HP_write 1"],
